@@ -1,14 +1,17 @@
-(* C06 — the seata-fence-mysql proxy-driver mode (FenceConn.BeginTx / FenceTx): what holds outside
-   the two known findings, and the refutations inside them. *)
+(* C06 — the seata-fence-mysql proxy-driver mode (FenceConn.BeginTx / FenceTx), including the lock a
+   failed business COMMIT leaks: what holds outside the two known findings, and the refutations
+   inside them. *)
 From Coq Require Import List NArith Bool Arith Lia.
 From SeataV Require Import Fence.FenceModel Fence.FenceRace Fence.FenceProofs.
 Import ListNotations.
 
-Definition drv_ok (row : option status) (ph : phase) (fault : option nat) : bool :=
-  negb (drv_supported row ph fault) ||
-  (let '(t, sh) := deliver_drv row ph fault in
+(* one delivery, through WithFence (drv = false) or through the proxy driver (drv = true), on a branch
+   whose fence row is free or locked by a leaked transaction: outside the two findings it satisfies the
+   step property; on a locked row it fails and changes nothing; the lock of a leaked transaction stays *)
+Definition dl_ok (drv locked : bool) (row : option status) (ph : phase) (fault : option nat) : bool :=
+  (drv && negb (drv_supported locked row ph fault)) ||
+  (let '(t, sh) := deliver_l drv locked row ph fault in
    done t
-   && match s_owner sh with None => true | Some _ => false end
    && legal row (s_row sh) (s_effs sh)
    && (errc_eqb (t_err t) ENone || (ostatus_eqb (s_row sh) row && effs_nil (s_effs sh)))
    && (match s_effs sh with
@@ -16,73 +19,149 @@ Definition drv_ok (row : option status) (ph : phase) (fault : option nat) : bool
        | [e] => phase_eqb e ph && Nat.eqb (t_ran t) 1 && errc_eqb (t_err t) ENone
        | _ => false
        end)
-   && Nat.leb (t_ran t) 1).
+   && Nat.leb (t_ran t) 1
+   && (negb locked || (negb (errc_eqb (t_err t) ENone)
+                       && match s_owner sh with Some true => true | _ => false end))
+   (* without the proxy driver no lock is ever leaked *)
+   && (drv || locked || match s_owner sh with None => true | Some _ => false end)).
 
-Lemma drv_ok_all : forall row ph fault, drv_ok row ph fault = true.
+Lemma dl_ok_all : forall drv locked row ph fault, dl_ok drv locked row ph fault = true.
 Proof.
-  intros row ph fault.
+  intros drv locked row ph fault.
   destruct fault as [n|].
-  - do 16 (destruct n as [|n]; [destruct row as [[]|], ph; vm_compute; reflexivity|]).
-    destruct row as [[]|], ph; vm_compute; reflexivity.
-  - destruct row as [[]|], ph; vm_compute; reflexivity.
+  - do 16 (destruct n as [|n]; [destruct drv, locked, row as [[]|], ph; vm_compute; reflexivity|]).
+    destruct drv, locked, row as [[]|], ph; vm_compute; reflexivity.
+  - destruct drv, locked, row as [[]|], ph; vm_compute; reflexivity.
 Qed.
 
-Lemma dop_result_legal2 : forall w o,
-  dop_supported w o = true ->
-  let '(row', effs) := dop_result o (c_row (get w (dop_key o))) in
-  legal2 (c_row (get w (dop_key o))) row' effs = true.
+(* ... and INSIDE the two regions every proxy-driver delivery breaks it: the committed record and the
+   committed effects do not move together.  The regions are exactly as wide as the defect. *)
+Definition region_fails (locked : bool) (row : option status) (ph : phase) (fault : option nat) : bool :=
+  drv_supported locked row ph fault ||
+  (let '(_, sh) := deliver_l true locked row ph fault in negb (legal row (s_row sh) (s_effs sh))).
+
+Lemma region_fails_all : forall locked row ph fault, region_fails locked row ph fault = true.
 Proof.
-  intros w [o | k ph fault] Hs; simpl.
-  - apply hop_result_legal2.
-  - simpl in Hs. pose proof (drv_ok_all (c_row (get w k)) ph fault) as H. unfold drv_ok in H.
-    rewrite Hs in H. simpl in H.
-    destruct (deliver_drv (c_row (get w k)) ph fault) as [t sh].
-    repeat rewrite andb_true_iff in H. destruct H as (((((_ & _) & L) & _) & _) & _).
-    apply legal_legal2. exact L.
+  intros locked row ph fault.
+  destruct fault as [n|].
+  - do 16 (destruct n as [|n]; [destruct locked, row as [[]|], ph; vm_compute; reflexivity|]).
+    destruct locked, row as [[]|], ph; vm_compute; reflexivity.
+  - destruct locked, row as [[]|], ph; vm_compute; reflexivity.
 Qed.
 
-Lemma winv_dstep : forall w o, dop_supported w o = true -> WInv w -> WInv (apply_dop w o).
+Theorem regions_exact : forall locked row ph fault,
+  drv_supported locked row ph fault = false ->
+  let '(_, sh) := deliver_l true locked row ph fault in legal row (s_row sh) (s_effs sh) = false.
 Proof.
-  intros w o Hs Hw k.
+  intros locked row ph fault H. pose proof (region_fails_all locked row ph fault) as R.
+  unfold region_fails in R. rewrite H in R. rewrite orb_false_l in R.
+  destruct (deliver_l true locked row ph fault) as [t sh]. apply negb_true_iff in R. exact R.
+Qed.
+
+Definition dop_drv (o : dop) : bool := match o with DApi _ _ _ => false | DDrv _ _ _ => true end.
+
+Lemma dop_run_eq : forall dw o,
+  dop_run dw o = deliver_l (dop_drv o) (is_locked (snd dw) (dop_key o)) (c_row (get (fst dw) (dop_key o)))
+                           (match o with DApi _ p _ | DDrv _ p _ => p end)
+                           (match o with DApi _ _ f | DDrv _ _ f => f end).
+Proof. intros dw [k ph f|k ph f]; reflexivity. Qed.
+
+Lemma dop_step_facts : forall dw o,
+  dop_supported dw o = true ->
+  let '(t, sh) := dop_run dw o in
+  legal (c_row (get (fst dw) (dop_key o))) (s_row sh) (s_effs sh) = true /\
+  (t_err t <> ENone -> s_row sh = c_row (get (fst dw) (dop_key o)) /\ s_effs sh = []).
+Proof.
+  intros dw o Hs. rewrite dop_run_eq.
+  set (ph := match o with DApi _ p _ | DDrv _ p _ => p end).
+  set (f := match o with DApi _ _ f | DDrv _ _ f => f end).
+  pose proof (dl_ok_all (dop_drv o) (is_locked (snd dw) (dop_key o)) (c_row (get (fst dw) (dop_key o))) ph f) as H.
+  unfold dl_ok in H.
+  assert (Hsup : dop_drv o && negb (drv_supported (is_locked (snd dw) (dop_key o)) (c_row (get (fst dw) (dop_key o))) ph f) = false).
+  { destruct o as [k p f0|k p f0]; simpl in *; [reflexivity|]. unfold ph, f. rewrite Hs. reflexivity. }
+  rewrite Hsup in H. simpl in H.
+  destruct (deliver_l (dop_drv o) (is_locked (snd dw) (dop_key o)) (c_row (get (fst dw) (dop_key o))) ph f) as [t sh].
+  repeat rewrite andb_true_iff in H.
+  destruct H as ((((((_ & L) & F) & _) & _) & _) & _).
+  split; [exact L|].
+  intros He. destruct (errc_eqb (t_err t) ENone) eqn:E.
+  - destruct (t_err t); simpl in E; try discriminate. contradiction.
+  - simpl in F. apply andb_prop in F. destruct F as [A B]. apply ostatus_eqb_eq in A.
+    split; [exact A|]. destruct (s_effs sh); [reflexivity|discriminate].
+Qed.
+
+Definition DInv (dw : dworld) : Prop := WInv (fst dw).
+
+Lemma dinv_step : forall dw o, dop_supported dw o = true -> DInv dw -> DInv (apply_dop dw o).
+Proof.
+  intros dw o Hs Hw k. unfold apply_dop.
+  pose proof (dop_step_facts dw o Hs) as HF.
+  destruct (dop_run dw o) as [t sh]. destruct HF as [L _]. simpl fst.
   destruct (N.eq_dec k (dop_key o)) as [->|Hne].
-  - unfold apply_dop.
-    pose proof (dop_result_legal2 w o Hs) as HL.
-    destruct (dop_result o (c_row (get w (dop_key o)))) as [row' effs].
-    rewrite get_set_same. simpl. rewrite (Hw (dop_key o)). symmetry. apply legal2_cnt. exact HL.
-  - unfold apply_dop. destruct (dop_result o (c_row (get w (dop_key o)))) as [row' effs].
-    rewrite get_set_other by congruence. apply Hw.
+  - rewrite get_set_same. simpl. rewrite (Hw (dop_key o)). symmetry. apply legal2_cnt. apply legal_legal2. exact L.
+  - rewrite get_set_other by congruence. apply Hw.
 Qed.
 
-Lemma winv_drun : forall h w, dhist_supported w h = true -> WInv w -> WInv (run_dhist w h).
+Lemma dinv_run : forall h dw, dhist_supported dw h = true -> DInv dw -> DInv (run_dhist dw h).
 Proof.
-  induction h as [|o h IH]; intros w Hs Hw; simpl; [assumption|].
+  induction h as [|o h IH]; intros dw Hs Hw; simpl; [assumption|].
   simpl in Hs. apply andb_prop in Hs. destruct Hs as [H1 H2].
-  apply IH; [assumption|]. apply winv_dstep; assumption.
+  apply IH; [assumption|]. apply dinv_step; assumption.
 Qed.
 
 Open Scope N_scope.
 
-(* mixed histories (WithFence deliveries, races, proxy-driver deliveries) in which every proxy-driver
-   delivery is outside the two known findings: idempotence and exclusivity still hold *)
+(* mixed histories (WithFence deliveries and proxy-driver deliveries, any faults - including a failing
+   business COMMIT and the lock it leaks) in which every proxy-driver delivery is outside the two
+   known findings: idempotence and exclusivity still hold *)
 Theorem drv_partial : forall h k,
-  dhist_supported [] h = true ->
-  let c := get (run_dhist [] h) k in
+  dhist_supported dinit h = true ->
+  let c := get (fst (run_dhist dinit h)) k in
   try_of c <= 1 /\ confirm_of c <= 1 /\ cancel_of c <= 1 /\ ~ (confirm_of c = 1 /\ cancel_of c = 1).
 Proof.
-  intros h k Hs. pose proof (winv_drun h [] Hs winv_empty k) as H. cbv zeta.
+  intros h k Hs. pose proof (dinv_run h dinit Hs winv_empty k) as H. cbv zeta.
   unfold try_of, confirm_of, cancel_of. rewrite H.
-  destruct (c_row (get (run_dhist [] h) k)) as [[]|]; simpl; repeat split; try lia; intros [A B]; discriminate.
+  destruct (c_row (get (fst (run_dhist dinit h)) k)) as [[]|]; simpl; repeat split; try lia; intros [A B]; discriminate.
 Qed.
+
+(* ... and record and effect commit or roll back together: every such delivery moves the record along
+   the status machine together with exactly the matching effect, and a delivery that reports a failure
+   (an injected one at ANY operation but the fence COMMIT, a refusal, a lock wait timeout) leaves the
+   branch exactly as it was *)
+Theorem drv_atomic : forall dw o,
+  dop_supported dw o = true ->
+  let k := dop_key o in
+  let '(t, sh) := dop_run dw o in
+  let c := get (fst dw) k in
+  let c' := get (fst (apply_dop dw o)) k in
+  legal (c_row c) (c_row c') (s_effs sh) = true /\ c_cnt c' = add_effs (c_cnt c) (s_effs sh) /\
+  (t_err t <> ENone -> c' = c).
+Proof.
+  intros dw o Hs. cbv zeta. pose proof (dop_step_facts dw o Hs) as HF. unfold apply_dop.
+  destruct (dop_run dw o) as [t sh]. destruct HF as [L F]. simpl fst. rewrite get_set_same. simpl.
+  split; [exact L|]. split; [reflexivity|].
+  intros He. destruct (F He) as [-> ->]. simpl. destruct (get (fst dw) (dop_key o)); reflexivity.
+Qed.
+
+(* the business COMMIT fails: neither the effect nor the record, the fence transaction and its lock
+   are leaked, and the next delivery for the branch times out on the lock without changing anything *)
+Lemma business_commit_fault_example :
+  let h := [DDrv 1 Prepare (Some 5%nat); DDrv 1 Prepare None; DApi 1 Rollback None] in
+  dhist_supported dinit h = true /\
+  run_dhist dinit [DDrv 1 Prepare (Some 5%nat)] = ([(1, mkC None (0, 0, 0))], [1]) /\
+  get (fst (run_dhist dinit h)) 1 = mkC None (0, 0, 0) /\
+  t_err (fst (dop_run (run_dhist dinit [DDrv 1 Prepare (Some 5%nat)]) (DDrv 1 Prepare None))) = ELocked.
+Proof. vm_compute. repeat split. Qed.
 
 (* inside the findings the property fails in the model as it does on the code *)
 Theorem drv_refuted :
   (* a duplicate commit through the proxy driver applies confirm twice *)
   (let h := [DDrv 1 Prepare None; DDrv 1 Commit None; DDrv 1 Commit None] in
-   dhist_supported [] h = false /\ confirm_of (get (run_dhist [] h) 1) = 2) /\
+   dhist_supported dinit h = false /\ confirm_of (get (fst (run_dhist dinit h)) 1) = 2) /\
   (* an empty rollback through the proxy driver records the suspension AND applies cancel *)
   (let h := [DDrv 1 Rollback None] in
-   dhist_supported [] h = false /\ get (run_dhist [] h) 1 = mkC (Some Suspended) (0, 0, 1)) /\
+   dhist_supported dinit h = false /\ get (fst (run_dhist dinit h)) 1 = mkC (Some Suspended) (0, 0, 1)) /\
   (* a failure of the second COMMIT leaves the effect without the record *)
   (let h := [DDrv 1 Prepare (Some 6%nat)] in
-   dhist_supported [] h = false /\ get (run_dhist [] h) 1 = mkC None (1, 0, 0)).
+   dhist_supported dinit h = false /\ get (fst (run_dhist dinit h)) 1 = mkC None (1, 0, 0)).
 Proof. vm_compute. repeat split. Qed.
